@@ -236,6 +236,13 @@ class _TokenIntrospectionResource:
         token = body.get("token")
         if not isinstance(token, str) or not token or len(token) > _MAX_TOKEN_CHARS:
             return None
+        try:
+            token.encode("utf-8")
+        except UnicodeEncodeError:
+            # A lone surrogate (JSON ``"\ud800"``) survives ``json.loads`` but
+            # is not text: no resolver issued it and it cannot be digested for
+            # the log.  Malformed like any other, so the same answer.
+            return None
         return token
 
     def on_post(self, req: falcon.Request, resp: falcon.Response) -> None:
